@@ -710,7 +710,69 @@ def case_charvalue_history(p):
     return []
 
 
-CASES = {"message": case_message, "links": case_links, "database": case_database, "charvalue": case_charvalue, "decode_twice": case_decode_twice, "charvalue_history": case_charvalue_history}
+SIG_FORMATS = {  # HAP presentation format -> (name, struct code of one value, boundary values)
+    0x04: ("uint8", "B", [0, 1, 100, 255]), 0x06: ("uint16", "H", [0, 1, 256, 65535]), 0x08: ("uint32", "L", [0, 1, 86400, 2**31, 2**32 - 1]),
+    0x0A: ("uint64", "Q", [0, 1, 2**32, 2**63, 2**64 - 1]), 0x10: ("int", "l", [-(2**31), -90, -1, 0, 1, 90, 2**31 - 1]), 0x14: ("float", "f", [-270.5, -1.0, 0.0, 0.5, 100.0, 1e6]),
+}
+SIG_UNITS = {0x272F: "celsius", 0x2763: "arcdegrees", 0x27AD: "percentage", 0x2731: "lux", 0x2703: "seconds", 0x2700: None}
+
+
+def case_signature(p):
+    """What the accessory put into a characteristic signature (format, unit, range, step - fixed-width little-endian numbers per HAP) is what the
+    decoded structure reports through the accessors and to_dict() that the pairings consume.  p: transport ('ble'|'coap'), fmt, lo, hi, step, unit."""
+    import struct as _st
+
+    if p["transport"] == "ble":
+        from aiohomekit.controller.ble.structs import Characteristic as Cls
+    else:
+        from aiohomekit.controller.coap.structs import Pdu09Characteristic as Cls
+    name, code, _ = SIG_FORMATS[p["fmt"]]
+    lo, hi, step = p["lo"], p["hi"], p["step"]
+    pf = _st.pack("<BbHBH", p["fmt"], 0, p["unit"], 1, 0)
+    tree = {"presentation_format": pf, "valid_range": _st.pack("<" + code * 2, lo, hi)}
+    if step is not None:
+        tree["step_value"] = _st.pack("<" + code, step)
+    sch = {f.name for f in ts.schema(Cls)}
+    if "instance_id" in sch:
+        tree["instance_id"] = 11
+    if "type" in sch:
+        tree["type"] = 0x25
+    if "properties" in sch:
+        tree["properties"] = 0x0033
+    try:
+        obj = Cls.decode(ts.encode(Cls, tree))
+        d = obj.to_dict()
+    except Exception as e:  # noqa: BLE001
+        return [(f"signature:decode-or-to_dict-raises:{type(e).__name__}:{p['transport']}", {**p, "error": str(e)[:160]})]
+    want_lo, want_hi = _st.unpack("<" + code * 2, tree["valid_range"])
+    want = {"format": name, "minValue": want_lo, "maxValue": want_hi}
+    if step:
+        want["minStep"] = _st.unpack("<" + code, tree["step_value"])[0]
+    if SIG_UNITS[p["unit"]]:
+        want["unit"] = SIG_UNITS[p["unit"]]
+    out = []
+    for k, v in want.items():
+        if k == "format" and p["transport"] == "coap" and d.get(k) == "int" and name != "float":
+            continue  # the CoAP structure deliberately reports every integer width as "int" (values still travel in their own width, checked below)
+        if d.get(k) != v or type(d.get(k)) is not type(v):
+            out.append((f"signature:{k}-differs:{name}:{p['transport']}", {**p, "reported": repr(d.get(k)), "encoded": repr(v)}))
+    for k in ("minStep", "unit"):
+        if k not in want and k in d:
+            out.append((f"signature:{k}-reported-though-absent:{name}:{p['transport']}", {**p, "reported": repr(d.get(k))}))
+    # values of that format: what is packed for the wire unpacks to the same value, and is the fixed-width little-endian number
+    for v in (lo, hi):
+        try:
+            raw = obj._pack_value(v)
+            back = obj._unpack_value(raw)
+        except Exception as e:  # noqa: BLE001
+            out.append((f"signature:value-pack-raises:{type(e).__name__}:{name}:{p['transport']}", {**p, "value": repr(v)}))
+            continue
+        if bytes(raw) != _st.pack("<" + code, v) or back != _st.unpack("<" + code, _st.pack("<" + code, v))[0]:
+            out.append((f"signature:value-bytes-differ:{name}:{p['transport']}", {**p, "value": repr(v), "got": bytes(raw).hex()}))
+    return _uniq(out)
+
+
+CASES = {"signature": case_signature, "message": case_message, "links": case_links, "database": case_database, "charvalue": case_charvalue, "decode_twice": case_decode_twice, "charvalue_history": case_charvalue_history}
 
 
 # ---------------------------------------------------------------- work
@@ -758,6 +820,13 @@ def _work(item, seed, tier):
                      sample={"case": "database", "params": p}, symbols=["family:database", f"database:{p['variant']}", f"database:shape:{p['na']}x{p['ns']}x{p['nc']}"])
             for sig, detail in viol:
                 acc.violation(sig, "database", p, detail)
+    elif family == "signature":
+        for p in item[1]:
+            viol = case_signature(p)
+            acc.case(key=("sig", core.jsonable(p)), outcome=f"signature:{viol[0][0].split(':')[1] if viol else 'ok'}", nontrivial=True, sample={"case": "signature", "params": p},
+                     symbols=["family:signature", f"signature:{p['transport']}", f"signature:fmt:{p['fmt']}"] + (["signature:negative-bound"] if p["lo"] < 0 else []))
+            for sig, detail in viol:
+                acc.violation(sig, "signature", p, detail)
     elif family == "charvalue":
         for p in item[1]:
             viol = case_charvalue(p)
@@ -874,9 +943,19 @@ def run(ctx):
     for i in range(0, len(cvs), 200):
         work.append(("charvalue", cvs[i : i + 200]))
 
+    sigs = []
+    for tr in ("ble", "coap"):
+        for fmt, (_n, _c, vals) in SIG_FORMATS.items():
+            for lo, hi in itertools.combinations(vals, 2):
+                for step in (None, vals[1] if vals[1] else vals[2], vals[2]):
+                    for unit in (list(SIG_UNITS) if (lo, hi) == (vals[0], vals[-1]) else [0x2700, 0x2763]):
+                        sigs.append({"transport": tr, "fmt": fmt, "lo": lo, "hi": hi, "step": step, "unit": unit})
+    for i in range(0, len(sigs), 300):
+        work.append(("signature", sigs[i : i + 300]))
     ctx.pmap(_work, work)
     ctx.exhaustive = True
     ctx.bounds.update(
+        signature_cases=len(sigs),
         message_types_by_reflection=len(pkg), synthetic_types=len(probes), sizes=SIZES, separator_item_lengths=SEP_LENGTHS,
         link_list_lengths="0..6", single_ids="all 65535 non-zero" if not quick else "every low byte x 6 high bytes + every high byte x 6 low bytes",
         database_shapes="1..3 x 1..3 x 1..3", database_variants=DB_VARIANTS, struct_characteristics=len(_struct_chars()),
